@@ -1,4 +1,4 @@
 SPECIFICATION Spec
-CONSTANTS MaxDepth = 3 TofDepth = 2 Level = 2
+CONSTANTS Level = 2
 INVARIANTS InvCoherent InvSize InvT1 InvT2 InvT3 InvRead
 CHECK_DEADLOCK FALSE
